@@ -164,4 +164,65 @@ Verify(blob, ca) ==
   IF blob.signer = ca /\ blob.sigOver = blob.content
     THEN [accepted |-> TRUE, content |-> blob.content]
     ELSE [accepted |-> FALSE, content |-> "-"]
+
+(* ------------------------------------------------------------------------ *)
+(* Signed documents, structure of the container (strengthening round)       *)
+(*                                                                          *)
+(* A document travels as S/MIME multipart/signed: the content part and a    *)
+(* CMS SignedData blob.  The CA's signature value covers ONLY the signed    *)
+(* attributes of the SignerInfo; the content is tied to them by nothing but *)
+(* the messageDigest attribute.  Every other field of the container (MIME   *)
+(* parameters, ContentInfo / SignedData / SignerInfo versions, algorithm    *)
+(* identifiers, signer identifier, embedded certificates, unsigned          *)
+(* attributes) is outside the signature, i.e. under the control of whoever  *)
+(* transports the document.                                                 *)
+(*                                                                          *)
+(* fblob = what a party WITHOUT any CA key can assemble from genuine        *)
+(* material (signature parts made by signer `by` for document `of`):        *)
+(*   content  which content is transported: "T" the target document, "O"    *)
+(*            another document signed by the same signers, "E" an edited    *)
+(*            content nobody ever signed                                    *)
+(*   by, of   the signature part carried: made by `by` in {"CA","foreign",  *)
+(*            "identity"} for document `of` in {"T","O"}                    *)
+(*   md       messageDigest attribute now says: digest of "T"/"O"/"E", or   *)
+(*            "junk"                                                        *)
+(*   rest     the remaining signed attributes: "orig" | "alt"               *)
+(*   sig      the signature value: the one `by` made for document "T"/"O"   *)
+(*            (over md = that document, rest = "orig"), or "junk"           *)
+(*   un       the fields outside the signature: field |-> "orig" | a class  *)
+(*            of replacement value                                          *)
+(* Digests are taken as collision free (distinct contents, distinct md).    *)
+(* ------------------------------------------------------------------------ *)
+Signers  == {"CA", "foreign", "identity"}
+UFields  == {"root_type", "sd_version", "sd_dalgs", "encap_type", "certs", "si_version", "si_sid",
+             "si_dalg", "si_salg", "si_uattrs", "mime_micalg", "mime_protocol"}
+\* classes of replacement values per field ("known" = another registered identifier of the same
+\* family, "unknown" = an unregistered one); the driver realises every class by several concrete values
+UAlts(f) == CASE f \in {"root_type", "encap_type", "si_dalg", "si_salg"} -> {"known", "unknown"}
+              [] f = "sd_dalgs" -> {"known", "unknown", "empty"}
+              [] f = "certs"    -> {"flipped", "removed", "foreign"}
+              [] f = "si_sid"   -> {"serial", "foreign"}
+              [] OTHER          -> {"alt"}
+UOrig == [f \in UFields |-> "orig"]
+
+FBase(by, of) == [content |-> "T", by |-> by, of |-> of, md |-> of, rest |-> "orig", sig |-> of, un |-> UOrig]
+
+\* the signature value is a valid signature of `ca` over the signed attributes as they are now
+FSigValid(b, ca) == b.sig # "junk" /\ b.by = ca /\ b.md = b.sig /\ b.rest = "orig"
+\* the signed attributes speak about exactly the transported content
+FBound(b) == b.md = b.content
+\* the property statement: "accepted only if it carries a valid signature of the configured
+\* Permissions CA over exactly its content" - nothing outside the signature can contribute
+Admissible(b, ca) == FSigValid(b, ca) /\ FBound(b)
+\* nothing was touched: the container is a genuinely signed document (must be accepted if by = ca)
+FUntouched(b) == b.content = b.of /\ b.md = b.of /\ b.rest = "orig" /\ b.sig = b.of /\ b.un = UOrig
+FEdits(b) == (IF b.content # "T" THEN 1 ELSE 0) + (IF b.md # b.of THEN 1 ELSE 0) + (IF b.rest # "orig" THEN 1 ELSE 0)
+             + (IF b.sig # b.of THEN 1 ELSE 0) + Cardinality({f \in UFields : b.un[f] # "orig"})
+
+\* implementation shape: the order of the checks of a CMS verifier.  `strict` = the unsigned
+\* fields this verifier insists on (refusing because of them is allowed, accepting never is).
+ChainVerify(b, ca, strict) ==
+  IF \E f \in strict : b.un[f] # "orig" THEN FALSE          \* container fields it does not understand
+  ELSE IF b.md # b.content THEN FALSE                        \* digest of the content vs. messageDigest: unconditional
+  ELSE b.sig # "junk" /\ b.by = ca /\ b.sig = b.md /\ b.rest = "orig"   \* signature over the signed attributes
 =============================================================================
